@@ -3,13 +3,14 @@
 # records what was reported in seeded/MATRIX.txt and in each seeded/<id>/meta.json (detected_by).
 cd /verif
 out=seeded/MATRIX.txt
-: > $out
+[ $# -eq 0 ] && : > $out
 declare -A ARGS=( [C01]="--seeds 3000 --budget 300" [C02]="--seeds 3000 --budget 300" [C03]="--seeds 3000 --budget 300" [C04]="--seeds 3000 --budget 300"
  [C05]="--seeds 3000 --budget 300" [C08]="--seeds 6000 --budget 300" [C12]="--seeds 6000 --budget 300" [C13]="--seeds 3000 --budget 300" )
-for id in ${@:-C01 C02 C03 C04 C05 C06 C07 C08 C09 C10 C11 C12 C13 C14 C15 C16 C17 C18 C19 C20}; do
+for id in ${@:-$(ls seeded | grep '^C')}; do
   git -C /repo diff --quiet || { echo "repo dirty"; exit 2; }
   git -C /repo apply /verif/seeded/$id/patch.diff || { echo "$id: patch does not apply" | tee -a $out; continue; }
-  log=$(./check $id quick ${ARGS[$id]:-} 2>&1)
+  prop=${id:0:3}
+  log=$(./check $prop quick ${ARGS[$id]:-} 2>&1)
   rc=$?
   git -C /repo checkout -- .
   first=$(echo "$log" | grep "class=" | head -3 | cut -c1-260)
@@ -22,7 +23,7 @@ i,rc,first,args=sys.argv[1:5]
 p=f'/verif/seeded/{i}/meta.json'
 m=json.load(open(p))
 classes=re.findall(r'class=(\S+)',first)
-m['detected_by']=[{"check":f"./check {i} quick {args}".strip(),"exit":int(rc),"violation_classes":classes}] if rc=='1' else []
+m['detected_by']=[{"check":f"./check {i[:3]} quick {args}".strip(),"exit":int(rc),"violation_classes":classes}] if rc=='1' else []
 json.dump(m,open(p,'w'),indent=1)
 PY
 done
